@@ -332,6 +332,43 @@ def _gnu(ctx, d, pgpy):
     if str(k.fingerprint) != RK.fpr_of(m).hex().upper():
         ctx.fail('gnu-dummy-fingerprint', {'case': d})
     ctx.count('gnu_dummy_loaded')
+    # a stub holds no secret integer at all: nothing may be signed or decrypted with it, whatever passphrase is tried, in both usage
+    # octets other producers write; and nothing may overwrite the stub
+    from pgpy.constants import SymmetricKeyAlgorithm, HashAlgorithm, KeyFlags
+    for usage in ((254, 255) if m['alg'] in (1, 17, 19, 22) else ()):
+        body2 = RK.sec_body(m, {'gnu': d['ext'], 'usage': usage, 'serial': bytes(range(16))})
+        # a complete key: stub primary + identity certified by the real secret (made elsewhere) so that operations get as far as the secret
+        full = pool.pgpy_key(d['key'], fresh=True, uid='stub owner')
+        pk = wire.split(bytes(full))
+        blob = wire.new_hdr(5, len(body2)) + body2 + b''.join(p_.raw for p_ in pk[1:])
+        try:
+            ks = pgpy.PGPKey.from_blob(blob)[0]
+        except Exception as e:
+            ctx.fail('gnu-dummy-key-not-loadable', {'case': d, 'usage': usage, 'err': repr(e)[:200], 'with_identity': True})
+            continue
+        if ks.is_unlocked or not ks.is_protected:
+            ctx.fail('key-without-secret-material-reports-usable', {'case': d, 'usage': usage, 'is_protected': ks.is_protected, 'is_unlocked': ks.is_unlocked})
+        ops = [('sign', lambda: ks.sign('doc')), ('certify', lambda: ks.certify(ks.userids[0])), ('revoke', lambda: ks.revoke(ks))]
+        for pw in (None, '', 'anything'):
+            for name, f in ops:
+                ctx.count('evaluations')
+                ctx.count('stub_operations_tried')
+                try:
+                    if pw is None:
+                        r_ = f()
+                    else:
+                        with ks.unlock(pw):
+                            r_ = f()
+                    ctx.fail('operation-performed-with-a-key-that-has-no-secret-material', {'case': d, 'usage': usage, 'op': name, 'passphrase': pw, 'result': repr(r_)[:60]})
+                except Exception:
+                    ctx.count('stub_operations_refused')
+        before = bytes(ks)
+        try:
+            ks.protect('new pw', SymmetricKeyAlgorithm.AES128, HashAlgorithm.SHA1)
+        except Exception:
+            pass
+        if bytes(ks) != before:
+            ctx.fail('stub-overwritten-by-protect', {'case': d, 'usage': usage})
     ctx.nontrivial(d)
 
 
